@@ -1380,6 +1380,10 @@ def expected_exc(case):
         return "attribute"                  # element_to_extension_element gets the signed text
     if b == "authn_response" and a.get("name_id") is None and (a.get("name_id_policy") or {}).get("format") == EMAIL:
         return "saml"                       # "Can't issue email nameids, unknown domain"
+    if b in ("entity_descriptor", "entities_descriptor", "signed_entity_descriptor", "metadata_string") \
+            and case["cfg"].get("metadata_key_usage") == "encryption" and "encryption_keypairs" in case["cfg"] \
+            and case["cfg"]["encryption_keypairs"] is None:
+        return "type"                       # do_key_descriptor's fall-back puts the LIST of certificates into one text
     return None
 
 
@@ -1813,6 +1817,12 @@ def gen_responses(ctx, rng):
                     if rng.random() < .15:
                         cfg["idp_sign_assertion"] = True
                     out.append(case("authn_response", a, cfg, "authn_response" + ("-enc" if enc else "")))
+    # PEFIM towards a service provider for which no encryption certificate is known: the advice stays in the clear
+    for sa in [None, True]:
+        for sr in [None, True]:
+            out.append(case("authn_response", {"identity": IDENTITIES[0], "in_response_to": "id-1", "dest": world.SP_ACS_POST,
+                                               "userid": "user-1", "authn": AUTHNS[0], "pefim": True, "sign_assertion": sa,
+                                               "sign_response": sr}, {"_sp_enc_in_md": False}, "authn_response-pefim-clear"))
     for ident in IDENTITIES[:3]:
         for sr, sa in [(None, None), (True, None), (None, True)]:
             out.append(case("ecp_authn_response", {"identity": ident, "in_response_to": "id-1", "dest": world.SP_ACS_POST,
@@ -1857,9 +1867,11 @@ UI_INFOS = [
     {"keywords": ["plain", "words"]},
     {"description": ["one", {"text": "two", "lang": "en"}]},
 ]
+# (text, lang) pairs are written as two-element lists inside a list: a top-level tuple would not survive a replay file
 ORGS = [{"name": "Org", "display_name": "Org AB", "url": "https://org.example.org"},
-        {"name": ("Org", "sv"), "display_name": [("Org AB", "sv"), ("Org Ltd", "en")], "url": [("https://org.example.org/sv", "sv")]},
-        {"name": [["Org", "en"]], "display_name": "D", "url": "https://o"}]
+        {"name": [["Org", "sv"]], "display_name": [["Org AB", "sv"], ["Org Ltd", "en"]], "url": [["https://org.example.org/sv", "sv"]]},
+        {"name": [["Org", "en"], "Org again"], "display_name": "D", "url": "https://o"},
+        {"name": "AB", "display_name": "Org AB", "url": "https://org.example.org"}]
 CONTACTS = [[{"given_name": "Anna", "sur_name": "Karlsson", "email_address": ["anna@example.org"], "contact_type": "technical"}],
             [{"given_name": "B", "email_address": ["b@example.org", "b2@example.org"], "telephone_number": ["+46 70 000"],
               "contact_type": "support", "company": "Org"}, {"sur_name": "C", "contact_type": "administrative"}],
@@ -2078,6 +2090,8 @@ UNDER_THEOREM = {
     "create_authn_query_response: assertions as serialised)": "c13_response_valid, c13_error_response_valid",
     "create_attribute_query": "c13_attribute_query_valid (Attribute elements as serialised)",
     "create_artifact_resolve": "c13_artifact_resolve_valid",
+    "metadata.entity_descriptor (EntityDescriptor shell + do_organization_info; role descriptors, contacts and "
+    "Extensions content as serialised)": "c13_entity_descriptor_valid",
     "create_name_id_mapping_response": "c13_name_id_mapping_response_refuted / _never_valid (finding C13-F1)",
     "s_utils.sid / time_util.instant": "c13_sid_lexical, c13_instant_lexical",
     "SamlBase._to_element_tree (every class, every object)": "c13_serialiser + c13_table_consistent",
@@ -2087,7 +2101,9 @@ CORRESPONDENCE_ONLY = [
     "create_name_id_mapping_request", "create_ecp_authn_request", "create_manage_name_id_request",
     "create_authn_response / create_authn_request_response (the Assertion: C09's assembly; here validated, not modelled)",
     "create_ecp_authn_request_response", "create_attribute_response (assertion part)", "create_assertion_id_request_response",
-    "create_authn_query_response (assertion part)", "metadata.entity_descriptor and its do_* helpers",
+    "create_authn_query_response (assertion part)",
+    "metadata.do_spsso_descriptor / do_idpsso_descriptor / do_aa / do_aq / do_pdp_descriptor, do_uiinfo, do_endpoints, "
+    "do_contact_person_info, do_key_descriptor, entity attributes / categories (inside entity_descriptor)",
     "metadata.entities_descriptor", "metadata.sign_entity_descriptor", "metadata.create_metadata_string",
     "create_assertion_id_request / create_discovery_service_request (return an identifier / a URL, no XML)",
 ]
@@ -2437,7 +2453,45 @@ def bi_name_id_mapping_response(case, obs):
         _statusv(a.get("status")), cq_signing(True if a.get("sign") else False, False), cq_observed(obs["tree"]))
 
 
+MD_NS = "urn:oasis:names:tc:SAML:2.0:metadata"
+
+
+def _locv(v):
+    if isinstance(v, str):
+        return "(LStr %s)" % cq_str(v)
+    if isinstance(v, (list, tuple)) and len(v) == 2 and all(isinstance(x, str) for x in v):
+        return "(LPair %s %s)" % (cq_str(v[0]), cq_str(v[1]))
+    raise TypeError("localized name %r" % (v,))
+
+
+def _orgv(d, key):
+    if key not in d:
+        return "OrgAbsent"
+    v = d[key]
+    if isinstance(v, str):
+        return "(OrgOne %s)" % _locv(v)
+    if isinstance(v, list):          # a list of names (a (text, lang) tuple does not survive JSON: the generator uses lists)
+        return "(OrgList [%s])" % "; ".join(_locv(x) for x in v)
+    return "(OrgOne %s)" % _locv(v)
+
+
+def bi_entity_descriptor(case, obs):
+    t = obs["tree"]
+    cfg = case["cfg"]
+    org = cfg.get("organization")
+    o = "None" if org is None else "(Some (%s, %s, %s))" % (_orgv(org, "name"), _orgv(org, "display_name"), _orgv(org, "url"))
+    ext = _kids(t, MD_NS, "Extensions")
+    one = lambda l: cq_otree(l[0] if l else None)
+    return "(BEntityDescriptor (Build_ed_args %s %s %s %s %s %s %s %s %s %s))" % (
+        cq_str(world.SP_ID if case["a"].get("who", "sp") == "sp" else world.IDP_ID), cq_ostr(_attr(t, "validUntil")), o,
+        cq_trees(_kids(t, MD_NS, "ContactPerson")), cq_trees(ext[0][3] if ext else []),
+        one(_kids(t, MD_NS, "IDPSSODescriptor")), one(_kids(t, MD_NS, "SPSSODescriptor")),
+        one(_kids(t, MD_NS, "AuthnAuthorityDescriptor")), one(_kids(t, MD_NS, "AttributeAuthorityDescriptor")),
+        one(_kids(t, MD_NS, "PDPDescriptor")))
+
+
 MODELLED = {
+    "entity_descriptor": bi_entity_descriptor,
     "authn_request": bi_authn_request,
     "logout_request": bi_logout_request,
     "logout_response": bi_status_response("BLogoutResponse", "id-req7"),
